@@ -200,7 +200,8 @@ def _run_session(data, case, faults, src_fault):
                    {'close': failing_close, 'close_error': None})
     src = cls(data, plan, fault=src_fault, kind=case.get('chunk_kind'))
     allowed = case.get('allowed')
-    allowed_obj = list(allowed) if allowed is not None else None
+    allowed_obj = imgsim.coll_arg(allowed, case.get('allowed_style'),
+                                  case.get('allowed_name_style'))
     pre = case.get('presession')
     if pre:
         # an earlier stream in the same process, set up from the same
@@ -223,7 +224,8 @@ def _run_session(data, case, faults, src_fault):
             pw.close()
         except Exception:
             pass
-    w = m.InspectWrapper(src, expected_format=case.get('expected'),
+    w = m.InspectWrapper(src, expected_format=imgsim.name_arg(
+        case.get('expected'), case.get('expected_style')),
                          allowed_formats=allowed_obj)
     imgsim.order_inspectors(w, case['order'])
     hist = History()
@@ -559,13 +561,34 @@ class C06(Check):
                                       ('qed', 1), ('raw', 2),
                                       ('vmdk_text', 1), ('iso', 1)])
             cls, rec = G.gen_content(rng, cls, layout=lay)
+        elif rng.random() < 0.03:
+            cls, rec = G.gen_big(rng, imgsim.size_knobs())
         else:
             cls, rec = G.gen_content(rng)
         data, info = F.build(rec)
         n = len(data)
         srng = st('schedule')
         pers = srng.choice(('file', 'iter'))
-        if sweep:
+        if cls == 'big':
+            # few, very large chunks: one giant chunk, a small head and the
+            # rest, or pieces of a knob's size
+            how = srng.choice(('whole', 'head', 'head', 'knob', 'mib'))
+            if how == 'whole':
+                sizes = [n]
+            elif how == 'head':
+                h = min(n, srng.choice((1, 64, 512, 4096, 65536)))
+                sizes = [h, n - h]
+            else:
+                k = srng.choice(imgsim.size_knobs()) if how == 'knob' \
+                    else 1 << 20
+                k = max(k, n // 64)
+                sizes = streams.uniform_sizes(n, k)
+            sizes = [x for x in sizes if x > 0]
+            if srng.random() < 0.3:
+                sizes.insert(srng.randint(0, len(sizes)), 0)
+            fam = 'big/' + how
+            r = streams.rle(sizes)
+        elif sweep:
             k = srng.randint(1, 12)
             cuts = sorted(set(srng.randrange(1, max(2, n)) for _ in
                               range(k))) if n > 1 else []
@@ -610,6 +633,12 @@ class C06(Check):
                 if pers == 'file' else None,
                 'expected': expected, 'allowed': allowed, 'order': order,
                 'sweep': sweep, 'faults': [], 'src_fault': None}
+        arng = st('argshapes')
+        if arng.random() < 0.2:
+            # how the caller spells the configuration
+            case['expected_style'] = arng.choice(imgsim.NAME_STYLES)
+            case['allowed_style'] = arng.choice(imgsim.COLL_STYLES)
+            case['allowed_name_style'] = arng.choice(imgsim.NAME_STYLES)
         prng = st('presession')
         if prng.random() < 0.2:
             _c2, rec2 = G.gen_content(prng)
